@@ -188,20 +188,30 @@ def check_score_group(ctx, key, g, V, D, quick):
             pnum = torch.tensor([r["pre"][int(L)][0] for r, L in zip(g, lens)])
             pcnt = torch.tensor([r["pre"][int(L)][1] for r, L in zip(g, lens)])
             for bf in (False, True):
-                for sort in (False, True):
-                    if quick and (s + bf + sort) % 2 and dtype == torch.float:
+                for sort in (False, True, "ties"):
+                    # "ties": a PackedSequence whose sorted_indices order equal-length sequences differently from
+                    # torch.sort (built the way pack_padded_sequence builds it, from an explicit permutation)
+                    if quick and (s + bf + (sort is True)) % 2 and dtype == torch.float:
                         continue
-                    idx = torch.argsort(lens, descending=True, stable=True) if sort else torch.arange(N)
+                    idx = torch.argsort(lens, descending=True, stable=True) if sort is True else torch.arange(N)
                     lg = logits[idx]
                     hy = hyp[idx]
                     ln = lens[idx]
                     if not bf:
                         lg, hy = lg.transpose(0, 1).contiguous(), hy.t().contiguous()
                     dim = 1 if bf else 0
-                    extra = dict(layout="packed", dim=dim, dtype=str(dtype), batch_first=bf, enforce_sorted=sort,
+                    extra = dict(layout="packed", dim=dim, dtype=str(dtype), batch_first=bf, enforce_sorted=sort is True, tie_order=str(sort),
                                  lens_rule="efflen" if (eos != NOEOS and s == 0) else "shift%d" % s)
                     try:
-                        ps = torch.nn.utils.rnn.pack_padded_sequence(lg, ln, batch_first=bf, enforce_sorted=sort)
+                        if sort == "ties":
+                            perm = torch.tensor(sorted(range(N), key=lambda i: (-int(ln[i]), -i)))
+                            inv = torch.empty_like(perm)
+                            inv[perm] = torch.arange(N)
+                            ps0 = torch.nn.utils.rnn.pack_padded_sequence(lg[perm] if bf else lg[:, perm], ln[perm], batch_first=bf,
+                                                                          enforce_sorted=True)
+                            ps = torch.nn.utils.rnn.PackedSequence(ps0.data, ps0.batch_sizes, perm, inv)
+                        else:
+                            ps = torch.nn.utils.rnn.pack_padded_sequence(lg, ln, batch_first=bf, enforce_sorted=sort)
                         out = _call_slp(ps, hy, dim, ieos if s % 2 == 0 else None, bool(s % 2))
                     except Exception as ex:
                         ctx.violation(dict(site="sequence_log_probs", kind="exception", layout="packed"),
